@@ -18,8 +18,9 @@ open BHS.Props.C17
 #print axioms C17_refuses_start
 #print axioms C17_refuses
 #print axioms C17_never_overwrites
-#print axioms C17_no_cleanup_statement
+#print axioms C17_cleanup_statement
 #print axioms C17_no_leftover_partial
 #print axioms C17_no_leftover_unreadable
-#print axioms C17_no_leftover_counterexample
+#print axioms C17_leftover_before_fix
 #print axioms C17_no_leftover_with_cleanup
+#print axioms C17_no_leftover
